@@ -61,9 +61,15 @@ def repr_string(string: str, indent: int = 0, prefer_single_qoute: bool = False)
         multiline = None
     # Single line literals are unescaped when read (\n, \' and \"), a backslash in front of these characters
     # or at the end of the string would not survive that. Backslashes have no meaning in multi line literals.
-    single_line_is_safe = re.search(r"\\([n'\"]|$)", string) is None
+    # Carriage returns and form feeds can't be written in single line literals at all.
+    single_line_is_safe = re.search(r"\\([n'\"]|$)|[\r\f]", string) is None
     # Multi line literals are dedented when read, if all lines are indented, that indentation would be lost.
-    multiline_is_safe = multiline is not None and any(not line.startswith(" ") for line in string.split("\n"))
+    # Carriage returns are read as new lines.
+    multiline_is_safe = (
+        multiline is not None
+        and "\r" not in string
+        and any(not line.startswith(" ") for line in string.split("\n"))
+    )
 
     if "\n" not in string:
         # Single line string
